@@ -1,0 +1,29 @@
+// Copyright 2026 The Go Authors. All rights reserved.
+// Use of this source code is governed by a BSD-style
+// license that can be found in the LICENSE file.
+
+//go:build verif
+
+package openpgp
+
+import "time"
+
+// This file exists for the /verif conformance harness (check X08) only: it
+// exports thin wrappers around the unexported key selection functions so
+// that their results can be compared with the specification. It adds no
+// behaviour.
+
+// VerifEncryptionKey returns e.encryptionKey(now).
+func VerifEncryptionKey(e *Entity, now time.Time) (Key, bool) {
+	return e.encryptionKey(now)
+}
+
+// VerifSigningKey returns e.signingKey(now).
+func VerifSigningKey(e *Entity, now time.Time) (Key, bool) {
+	return e.signingKey(now)
+}
+
+// VerifPrimaryIdentity returns e.primaryIdentity().
+func VerifPrimaryIdentity(e *Entity) *Identity {
+	return e.primaryIdentity()
+}
